@@ -238,6 +238,30 @@ func (img *image) emit(r *vk.Run, round, cfgIdx int, j *job, res *jobResult) {
 		r.Case(fmt.Sprintf("CHdr %d %d %s %s", maxTxEntries, maxKeyLen, vk.Hex(stream), resTerm(res.readHdr, ok)),
 			js, "ReadTxHeader/"+fam+"/"+res.readHdr.class(), true)
 	}
+	if img.cfg.compression == 0 && res.didExp {
+		js := base("export")
+		js["go"] = res.export.class()
+		js["violation"] = res.export.panicked
+		var es, vs []string
+		for _, e := range res.expEs {
+			es = append(es, fmt.Sprintf("(%d, %d, %s)", e.vLen, uint64(e.vOff), vk.Hex(e.hVal[:])))
+		}
+		for _, v := range res.expVals {
+			vs = append(vs, vk.Hex(v))
+		}
+		tl := []byte{}
+		var vl []string
+		if img.cfg.embedded {
+			tl = txlog
+		} else {
+			for _, v := range vlogs {
+				vl = append(vl, vk.Hex(v))
+			}
+		}
+		r.Case(fmt.Sprintf("CExp %d %s %s %s %s", img.cfg.mode(), vk.Hex(tl), vk.List(vl), vk.List(es),
+			resTerm(res.export, fmt.Sprintf("(%s, %s)", vk.Bool(res.expTrunc), vk.List(vs)))),
+			js, "ExportTx/"+fam+"/"+res.export.class(), true)
+	}
 	if img.cfg.compression == 0 {
 		for i := range res.vals {
 			v := &res.vals[i]
@@ -274,10 +298,17 @@ func (img *image) runAll(jobs []*job) ([]*jobResult, error) {
 		}()
 	}
 	for i := range jobs {
-		ch <- i
+		if !jobs[i].sequential() {
+			ch <- i
+		}
 	}
 	close(ch)
 	wg.Wait()
+	for i := range jobs {
+		if jobs[i].sequential() {
+			results[i], errs[i] = img.run(jobs[i])
+		}
+	}
 	for _, e := range errs {
 		if e != nil {
 			return nil, e
@@ -380,3 +411,5 @@ func Replay(r *vk.Run, c map[string]any) error {
 	img.emit(r, round, cfgIdx, j, res)
 	return nil
 }
+
+func (j *job) sequential() bool { return j.kind == "vlen-huge" || j.kind == "vlen-longer-compressed" }
